@@ -25,7 +25,7 @@ func init() {
 			"the strict receiver parses with XML attribute-value normalisation, verifies with goxmldsig against the reported and published certificate, and checks Reference target, declared methods, embedded certificate and position right after Issuer; distinct = shape hash (key config, algorithm, canonicaliser, kind, phase, string classes, outcome)",
 		Directed:   c13Directed,
 		Run:        c13Run,
-		MustHit:    []string{"enc=setter", "sig=field", "sig=setter", "sig=none", "ec_signer", "alg_configured", "canon_configured", "kind=AuthnRequest", "kind=LogoutRequest", "kind=LogoutResponse", "phase=cached", "phase=restart", "hostile_strings", "value_with_CR", "sign_requests_off", "neighbour_sp_sharing_key_store_objects_signs"},
+		MustHit:    []string{"enc=setter", "sig=field", "sig=setter", "sig=none", "ec_signer", "alg_configured", "canon_configured", "kind=AuthnRequest", "kind=LogoutRequest", "kind=LogoutResponse", "phase=cached", "phase=restart", "hostile_strings", "value_with_CR", "sign_requests_off", "neighbour_sp_sharing_key_store_objects_signs", "signing_key_unavailable_during_build"},
 		RandomRuns: map[string]int{"quick": 6000, "thorough": 50000},
 		Assumptions: []string{"ECDSA signatures are verified with the same goxmldsig verifier the library's users would use; their octet encoding versus other XML-DSig stacks is a dependency matter",
 			"only algorithm / key-type combinations the signing library supports are configured"},
@@ -57,6 +57,19 @@ func c13Run(r *core.Run) {
 	shared := t.Int(3, "c13.sharedstore") == 1
 	if shared {
 		o.Cfg.SharedKeyStores = &world.SharedKS{}
+	}
+	// the signer (setter-configured keys) or the key store (field-configured keys) is unavailable during
+	// one build: the build must fail, or deliver a fully valid message, and the next build must be sound
+	outage := t.Int(5, "c13.outage") == 1
+	usesSetter := func(k world.KeyStyle) bool {
+		return k == world.KeySetter || k == world.KeyBoth || k == world.KeyBothDiffer
+	}
+	signStyle := o.SigStyle
+	if signStyle == world.KeyNone {
+		signStyle = o.EncStyle
+	}
+	if outage && usesSetter(signStyle) {
+		o.Cfg.SignerFault = &world.FaultCtl{}
 	}
 	if !o.PreHistory(r) || !o.Build() {
 		return
@@ -143,6 +156,52 @@ func c13Run(r *core.Run) {
 			return
 		}
 		r.Fault("sp_restart")
+	}
+	if outage {
+		var fks *world.FieldKeyStore
+		switch {
+		case o.Cfg.SignerFault != nil:
+			o.Cfg.SignerFault.Fail = true
+		case signStyle == world.KeyField:
+			if o.SigStyle == world.KeyNone {
+				fks, _ = o.Node.SP.SPKeyStore.(*world.FieldKeyStore)
+			} else {
+				fks, _ = o.Node.SP.SPSigningKeyStore.(*world.FieldKeyStore)
+			}
+			if fks != nil {
+				fks.Err = world.ErrSignerFault
+			}
+		}
+		if o.Cfg.SignerFault != nil || fks != nil {
+			fm, fo := o.BuildOut(r, kind, true, false)
+			r.Fault("signing_key_unavailable_during_build")
+			r.Steps++
+			if fo.Panic != "" {
+				r.Fail("produce", "C13/build-panicked-when-signing-key-unavailable/"+o.KeyCfg(), obs("panic", fo.Panic, "kind", kind, "key_config", o.KeyCfg()))
+				return
+			}
+			if fo.OK() {
+				// nil error: then the message must be as good as any other signed message
+				bad := ""
+				if d, err := world.ConformingParse([]byte(fm.XML)); err != nil {
+					bad = "not well-formed"
+				} else if f := world.ReadSigFacts(d.Root()); !f.Present {
+					bad = "unsigned message returned without error"
+				} else if err := world.VerifyEnveloped(d.Root(), o.WantSignCert.DER, o.Node.Clock.Dsig()); err != nil {
+					bad = "signature does not verify: " + err.Error()
+				}
+				if bad != "" {
+					r.Fail("produce", "C13/signing-failure-swallowed/"+kind, obs("kind", kind, "key_config", o.KeyCfg(), "problem", bad, "produced", trunc(fm.XML, 1500)))
+					return
+				}
+			}
+			if o.Cfg.SignerFault != nil {
+				o.Cfg.SignerFault.Fail = false
+			}
+			if fks != nil {
+				fks.Err = nil
+			}
+		}
 	}
 	m, out := o.BuildOut(r, kind, true, hostile)
 	r.Steps++
